@@ -115,7 +115,8 @@ def r15_2(ctx, b, rc, info):
     trs = [(bi2, ct2) for bi2, dd, ct2 in calls_in(ctx, b) if dd and dd.endswith('Box2D::<T, U>::translate')]
     if not ctx.check(len(trs) == 2, R, key + '|translate pair', b.loc(), 'two translate calls (into and out of destination space)', 'expected two Box2D::translate calls, found %d (fail closed)' % len(trs)):
         return
-    trs.sort(key=lambda p: sum(1 for q in trs if an.cfg.dominates(q[0], p[0])))
+    _snap = list(trs)
+    trs = sorted(_snap, key=lambda p: sum(1 for q in _snap if an.cfg.dominates(q[0], p[0])))
     T = nosite(strip_all(trs[0][1][2][1]))
     T2 = nosite(strip_all(trs[1][1][2][1]))
     okn = (is_call(T2, 'Neg::neg') and strip_all(T2[2][0]) == T) or (T2[0] == 'un' and T2[1] == 'Neg' and T2[2] == T)
